@@ -49,6 +49,7 @@ use tensor_chain::gossip::{
 };
 use tensor_chain::membership::NodeHealth;
 use tensor_chain::network::MemoryTransport;
+use tensor_chain::{HLCTimestamp, HybridLogicalClock};
 
 /// at most 4 recorded violations per class (the report keeps 50 in total)
 trait Capped {
@@ -1129,6 +1130,7 @@ fn main() {
     .iter()
     .map(|s| s.to_string())
     .collect();
+    rep.expected_branches.extend(hlc_expected_branches());
     let names: Vec<String> = (0..K).map(|i| format!("n{i}")).collect();
     let mut m = Model::spawn(&args.driver);
     let root = Rng::new(args.seed);
@@ -1136,6 +1138,12 @@ fn main() {
 
     // ---------------------------------------------------------------- corpus (run first)
     corpus_stream(&mut rep, &mut m, &names);
+    {
+        let t0 = std::time::Instant::now();
+        hlc_directed(&mut rep, &mut m);
+        hlc_saturation(&mut rep, &mut m);
+        rep.note(&format!("hlc.directed: {:.2}s", t0.elapsed().as_secs_f64()));
+    }
     directed_unsorted(&mut rep, &mut m, &names);
     directed_manager(&mut rep, &mut m, &names);
     {
@@ -1297,6 +1305,13 @@ fn main() {
         let t0 = std::time::Instant::now();
         unsorted_stream(&mut rep, &mut m, &names, &root, 2000 * scale);
         rep.note(&format!("unsorted_batches: {:.1}s", t0.elapsed().as_secs_f64()));
+    }
+
+    // ---------------------------------------------------------------- hybrid logical clock histories
+    {
+        let t0 = std::time::Instant::now();
+        hlc_stream(&mut rep, &mut m, &root, 3000 * scale);
+        rep.note(&format!("hlc.random: {:.1}s", t0.elapsed().as_secs_f64()));
     }
 
     // ---------------------------------------------------------------- multi-node system runs
@@ -2624,5 +2639,596 @@ fn cluster_stream(rep: &mut Report, m: &mut Model, names: &[String], root: &Rng,
         if case == 0 {
             rep.sample(json!({"stream": stream, "cfg": format!("{cfg:?}"), "script": ops.iter().take(16).map(cop_txt).collect::<Vec<_>>()}));
         }
+    }
+}
+
+// ====================================================================================================
+// hybrid logical clock (tensor_chain/src/hlc.rs): "a node's ... logical clock never decrease[s]"
+// ====================================================================================================
+//
+// The physical time a call reads (`wall_with_drift()` = wall-clock start + monotonic elapsed + drift
+// offset) cannot be injected, but the public drift offset pins or brackets it:
+//   * `HPhys::Pin`     drift offset i64::MIN: the reading saturates to EXACTLY 0 (a physical clock far
+//                      behind / stalled: every tie is then decided by the clock's own wall component and
+//                      the received one — deterministic);
+//   * `HPhys::Live(d)` drift offset d: the reading is real time + d (set back, or ahead of everything);
+//                      `estimated_wall_ms()` is read immediately before and after the call, the reading
+//                      the call used lies in that bracket (the monotonic clock does not go back) and is
+//                      passed to the model as the input of the step.
+// Every clock is calibrated by one pinned `now()` (answer = (wall-clock start, 1)); walls in scripts and
+// traces are written relative to B = the wall-clock start of clock 0.
+
+/// received walls are pushed at least this far (ms) ahead of real time: real time never catches up
+const HLC_FAR: u64 = 40_000_000;
+
+#[derive(Clone, Debug, PartialEq)]
+enum HPhys {
+    Pin,
+    Live(i64),
+}
+
+/// where a received timestamp comes from (wall, logical, node)
+#[derive(Clone, Debug, PartialEq)]
+enum HSrc {
+    /// wall = B + off
+    Off(u64, u64, u32),
+    /// wall = the wall component the receiving clock last handed out + dw
+    Held(i64, u64, u32),
+    /// wall = the physical reading taken just before the call + dw
+    Phys(i64, u64, u32),
+    /// exact copy of the k-th timestamp handed out so far by any clock (a message; k modulo the count)
+    Issued(usize),
+    /// the k-th timestamp received so far by any clock, once more (re-delivery)
+    Again(usize),
+}
+
+#[derive(Clone, Debug, PartialEq)]
+enum HStep {
+    Now { c: usize, phys: HPhys },
+    Recv { c: usize, phys: HPhys, src: HSrc },
+}
+
+fn hphys_txt(p: &HPhys) -> String {
+    match p {
+        HPhys::Pin => "pinned-to-0".to_string(),
+        HPhys::Live(d) => format!("real-time{d:+}"),
+    }
+}
+
+impl HStep {
+    fn txt(&self) -> String {
+        match self {
+            HStep::Now { c, phys } => format!("clock{c}.now() physical={}", hphys_txt(phys)),
+            HStep::Recv { c, phys, src } => {
+                let s = match src {
+                    HSrc::Off(o, l, n) => format!("(B+{o}, {l}, node {n})"),
+                    HSrc::Held(dw, l, n) => format!("(own wall{dw:+}, {l}, node {n})"),
+                    HSrc::Phys(dw, l, n) => format!("(physical reading{dw:+}, {l}, node {n})"),
+                    HSrc::Issued(k) => format!("issued#{k}"),
+                    HSrc::Again(k) => format!("received#{k} again"),
+                };
+                format!("clock{c}.receive{s} physical={}", hphys_txt(phys))
+            }
+        }
+    }
+    fn with_phys(&self, p: HPhys) -> HStep {
+        match self {
+            HStep::Now { c, .. } => HStep::Now { c: *c, phys: p },
+            HStep::Recv { c, src, .. } => HStep::Recv { c: *c, phys: p, src: src.clone() },
+        }
+    }
+    fn phys(&self) -> &HPhys {
+        match self {
+            HStep::Now { phys, .. } | HStep::Recv { phys, .. } => phys,
+        }
+    }
+}
+
+fn hts(t: &HLCTimestamp, base: u64) -> String {
+    if t.wall_ms() >= base {
+        format!("(B+{}, {}, node {})", t.wall_ms() - base, t.logical(), t.node_id_hash())
+    } else {
+        format!("({}, {}, node {})", t.wall_ms(), t.logical(), t.node_id_hash())
+    }
+}
+
+fn hwall(w: u64, base: u64) -> String {
+    if w >= base { format!("B+{}", w - base) } else { format!("{w}") }
+}
+
+fn add_i64(w: u64, d: i64) -> u64 {
+    if d >= 0 { w.saturating_add(d as u64) } else { w.saturating_sub(d.unsigned_abs()) }
+}
+
+/// what one real call did
+struct HRec {
+    c: usize,
+    recv: Option<HLCTimestamp>,
+    before: HLCTimestamp,
+    p0: u64,
+    p1: u64,
+    out: HLCTimestamp,
+}
+
+/// real clocks + the oracles on their outputs (no model in here: the shrinker re-runs scripts on it)
+struct HLab {
+    clocks: Vec<HybridLogicalClock>,
+    base: u64,
+    starts: Vec<u64>,
+    cur: Vec<HLCTimestamp>,
+    issued: Vec<Vec<HLCTimestamp>>,
+    all: Vec<HLCTimestamp>,
+    received: Vec<HLCTimestamp>,
+    trace: Vec<String>,
+    viol: Vec<(String, String)>,
+}
+
+impl HLab {
+    fn new(n: usize) -> HLab {
+        let mut lab = HLab { clocks: vec![], base: 0, starts: vec![], cur: vec![], issued: vec![], all: vec![], received: vec![], trace: vec![], viol: vec![] };
+        for i in 0..n {
+            let c = HybridLogicalClock::new(i as u64 + 1).expect("clock");
+            c.set_drift_offset(i64::MIN);
+            let t = c.now().expect("now");
+            if i == 0 {
+                lab.base = t.wall_ms();
+            }
+            lab.starts.push(t.wall_ms());
+            lab.cur.push(t);
+            lab.issued.push(vec![t]);
+            lab.all.push(t);
+            lab.clocks.push(c);
+        }
+        lab
+    }
+
+    fn flag(&mut self, class: String, what: String) {
+        if !self.viol.iter().any(|(c, _)| *c == class) {
+            self.viol.push((class, what));
+        }
+    }
+
+    fn step(&mut self, s: &HStep) -> HRec {
+        let (c, phys, src) = match s {
+            HStep::Now { c, phys } => (*c % self.clocks.len(), phys, None),
+            HStep::Recv { c, phys, src } => (*c % self.clocks.len(), phys, Some(src)),
+        };
+        let base = self.base;
+        let before = self.cur[c];
+        self.clocks[c].set_drift_offset(match phys {
+            HPhys::Pin => i64::MIN,
+            HPhys::Live(d) => *d,
+        });
+        let p0 = self.clocks[c].estimated_wall_ms();
+        let recv = src.map(|src| match src {
+            HSrc::Off(o, l, n) => HLCTimestamp::new(base + o, *l, *n),
+            HSrc::Held(dw, l, n) => HLCTimestamp::new(add_i64(before.wall_ms(), *dw), *l, *n),
+            HSrc::Phys(dw, l, n) => HLCTimestamp::new(add_i64(p0, *dw), *l, *n),
+            HSrc::Issued(k) => self.all[*k % self.all.len()],
+            HSrc::Again(k) => {
+                if self.received.is_empty() { self.all[*k % self.all.len()] } else { self.received[*k % self.received.len()] }
+            }
+        });
+        let p0 = self.clocks[c].estimated_wall_ms();
+        let out = match &recv {
+            Some(r) => self.clocks[c].receive(r).expect("receive"),
+            None => self.clocks[c].now().expect("now"),
+        };
+        let p1 = self.clocks[c].estimated_wall_ms();
+        let (site, call) = if recv.is_some() { ("tensor_chain.hlc.receive", "receive") } else { ("tensor_chain.hlc.now", "now") };
+        self.trace.push(match &recv {
+            Some(r) => format!("clock{c}.receive{} physical reading {} -> {}", hts(r, base), hwall(p0, base), hts(&out, base)),
+            None => format!("clock{c}.now() physical reading {} -> {}", hwall(p0, base), hts(&out, base)),
+        });
+        // ORACLES (the property, on the real outputs alone)
+        // 1. strictly after everything this clock handed out before
+        if let Some(prev) = self.issued[c].iter().rev().find(|u| !(out > **u)).copied() {
+            self.flag(
+                format!("{site}/timestamp_not_after_previously_issued"),
+                format!("clock{c}: {call}() returned {} after this clock had already handed out {}", hts(&out, base), hts(&prev, base)),
+            );
+        }
+        // 2. strictly after the received timestamp
+        if let Some(r) = &recv {
+            if !(out > *r) {
+                self.flag(
+                    format!("{site}/timestamp_not_after_received"),
+                    format!("clock{c}: receive{} returned {}", hts(r, base), hts(&out, base)),
+                );
+            }
+            self.received.push(*r);
+        }
+        self.cur[c] = out;
+        self.issued[c].push(out);
+        self.all.push(out);
+        HRec { c, recv, before, p0, p1, out }
+    }
+}
+
+fn hlc_fails(script: &[HStep], n: usize, class: &str) -> bool {
+    let mut lab = HLab::new(n);
+    for s in script {
+        lab.step(s);
+    }
+    lab.viol.iter().any(|(c, _)| c == class)
+}
+
+/// shrink a failing clock script (steps; real-time readings replaced by the pinned reading where the
+/// failure survives) and report it with the concrete trace of the shrunk run
+fn hlc_report(rep: &mut Report, stream: &str, case: &str, class: &str, script: &[HStep], n: usize, first: &HLab) {
+    if rep.violations.iter().filter(|v| v["class"] == class).count() >= 3 {
+        rep.hit(&format!("violations.{class}"));
+        return;
+    }
+    let mut cur = shrink_list(script, &mut |cand: &[HStep]| hlc_fails(cand, n, class));
+    for i in 0..cur.len() {
+        if *cur[i].phys() != HPhys::Pin {
+            let mut cand = cur.clone();
+            cand[i] = cur[i].with_phys(HPhys::Pin);
+            if hlc_fails(&cand, n, class) {
+                cur = cand;
+            }
+        }
+    }
+    cur = shrink_list(&cur, &mut |cand: &[HStep]| hlc_fails(cand, n, class));
+    // the shrunk run (scripts with real-time readings depend on the millisecond: retry, else keep the original)
+    for _ in 0..3 {
+        let mut lab = HLab::new(n);
+        for s in &cur {
+            lab.step(s);
+        }
+        if let Some((_, what)) = lab.viol.iter().find(|(c, _)| c == class) {
+            rep.violation(
+                class,
+                what,
+                json!({"stream": stream, "case": case, "clocks": n,
+                       "script": cur.iter().map(|s| s.txt()).collect::<Vec<_>>(),
+                       "trace": lab.trace,
+                       "B": format!("wall-clock start of clock 0 (this run: {} ms); every clock is first calibrated by one now() with the physical reading pinned to 0, answer (start, 1)", lab.base),
+                       "steps_before_shrinking": script.len()}),
+            );
+            return;
+        }
+    }
+    let what = first.viol.iter().find(|(c, _)| c == class).map(|(_, w)| w.clone()).unwrap_or_default();
+    rep.violation(
+        class,
+        &what,
+        json!({"stream": stream, "case": case, "clocks": n, "script": script.iter().map(|s| s.txt()).collect::<Vec<_>>(),
+               "trace": first.trace, "B": format!("wall-clock start of clock 0 (this run: {} ms)", first.base), "shrunk": false}),
+    );
+}
+
+/// weak order of the three wall times of a receive, e.g. `p<l=r` (p physical reading, l the clock's, r received)
+fn ord3(p: u64, l: u64, r: u64) -> String {
+    let mut v = [('l', l), ('p', p), ('r', r)];
+    v.sort_by_key(|x| (x.1, x.0));
+    let mut s = String::new();
+    for i in 0..3 {
+        if i > 0 {
+            s.push(if v[i].1 == v[i - 1].1 { '=' } else { '<' });
+        }
+        s.push(v[i].0);
+    }
+    s
+}
+
+fn hlc_expected_branches() -> Vec<String> {
+    let mut v = vec!["hlc.now.p<l".to_string(), "hlc.now.p=l".to_string(), "hlc.now.p>l".to_string()];
+    for o in ["l<p<r", "l<r<p", "p<l<r", "p<r<l", "r<l<p", "r<p<l", "l=p<r", "l=r<p", "p=r<l", "l<p=r", "p<l=r", "r<l=p", "l=p=r"] {
+        for k in ["counter_smaller", "counter_equal", "counter_larger"] {
+            v.push(format!("hlc.recv.{o}.{k}"));
+        }
+    }
+    v
+}
+
+/// run one clock case: `gen(lab, i)` produces the i-th step looking at the real clocks' answers so far;
+/// every step is sent to the model until the first disagreement, the real run and its oracles continue
+fn hlc_case(rep: &mut Report, m: &mut Model, stream: &str, case: &str, n: usize, gen: &mut dyn FnMut(&HLab, usize) -> Option<HStep>) {
+    let mut lab = HLab::new(n);
+    let mut live = true;
+    let mut ms: Vec<(u64, u64)> = Vec::new();
+    for i in 0..n {
+        let node = lab.cur[i].node_id_hash();
+        let ans = m.ask(&format!("hlc_now {} 0 {} 0", lab.starts[i], node));
+        let imp = format!("{}:{}:{} {} 1", lab.starts[i], lab.cur[i].logical(), node, lab.starts[i]);
+        if !rep.compare(stream, || json!({"case": case, "step": "calibration: now() with the physical reading pinned to 0 on a fresh clock"}), &imp, &ans) {
+            live = false;
+        }
+        ms.push((lab.starts[i], 1));
+    }
+    let mut script: Vec<HStep> = Vec::new();
+    let mut tied = false;
+    let mut i = 0;
+    while let Some(s) = gen(&lab, i) {
+        i += 1;
+        let rec = lab.step(&s);
+        script.push(s);
+        // which case of the code this was, from the real side's own numbers
+        match &rec.recv {
+            None => {
+                let l = rec.before.wall_ms();
+                rep.hit(if rec.p0 < l { "hlc.now.p<l" } else if rec.p0 == l { "hlc.now.p=l" } else { "hlc.now.p>l" });
+            }
+            Some(r) => {
+                let o = ord3(rec.p0, rec.before.wall_ms(), r.wall_ms());
+                let k = match r.logical().cmp(&rec.before.logical()) {
+                    std::cmp::Ordering::Less => "counter_smaller",
+                    std::cmp::Ordering::Equal => "counter_equal",
+                    std::cmp::Ordering::Greater => "counter_larger",
+                };
+                rep.hit(&format!("hlc.recv.{o}.{k}"));
+                if r.wall_ms() == rec.before.wall_ms() || r.wall_ms() == rec.p0 {
+                    tied = true;
+                }
+            }
+        }
+        if rec.p0 != rec.p1 {
+            rep.hit("hlc.physical_reading_changed_during_call");
+        }
+        if live {
+            let node = rec.out.node_id_hash();
+            let imp = format!("{}:{}:{}", rec.out.wall_ms(), rec.out.logical(), node);
+            // the reading the call used lies in [p0, p1]; when it exceeded both other walls it IS the
+            // answer's wall component, otherwise every reading of the bracket gives the same answer
+            let mut cands = vec![rec.p0];
+            if rec.out.wall_ms() > rec.p0 && rec.out.wall_ms() <= rec.p1 {
+                cands.push(rec.out.wall_ms());
+            }
+            let mut first_ans = String::new();
+            let mut matched = false;
+            for p in cands {
+                let line = match &rec.recv {
+                    None => format!("hlc_now {} {} {} {}", ms[rec.c].0, ms[rec.c].1, node, p),
+                    Some(r) => format!("hlc_recv {} {} {} {} {} {} {}", ms[rec.c].0, ms[rec.c].1, node, p, r.wall_ms(), r.logical(), r.node_id_hash()),
+                };
+                let ans = m.ask(&line);
+                let mut it = ans.split(' ');
+                let ts = it.next().unwrap_or("").to_string();
+                if first_ans.is_empty() {
+                    first_ans = ts.clone();
+                }
+                if ts == imp {
+                    let a: u64 = it.next().and_then(|x| x.parse().ok()).unwrap_or(0);
+                    let b: u64 = it.next().and_then(|x| x.parse().ok()).unwrap_or(0);
+                    ms[rec.c] = (a, b);
+                    matched = true;
+                    break;
+                }
+            }
+            if !matched {
+                let sc: Vec<String> = script.iter().map(|s| s.txt()).collect();
+                rep.disagree(stream, json!({"case": case, "script": sc, "trace": lab.trace, "B": lab.base}), &imp, &first_ans);
+                live = false;
+                rep.hit("hlc.real_only_after_divergence");
+            }
+        }
+    }
+    for (class, _) in lab.viol.clone() {
+        hlc_report(rep, stream, case, &class, &script, n, &lab);
+    }
+    let key = format!("{case}|{}", script.iter().map(|s| s.txt()).collect::<Vec<_>>().join("/"));
+    rep.case(stream, if tied { Some(&key) } else { None });
+}
+
+/// directed clock cases, run before every other stream.  The minimal history in which the three-way
+/// branch of `receive` is the only thing keeping the clock from going back — the clock is pushed ahead
+/// of physical time by a message from a fast peer, stamps k local events, then receives a delayed
+/// message whose wall time is EXACTLY its own — and its neighbours: received counter smaller / equal /
+/// larger than the local one, received wall one below / one above, physical reading pinned behind, at
+/// real time, set back an hour, ahead of everything (ties with the clock's own wall component within a
+/// millisecond), the message delivered once more, two clocks exchanging real timestamps out of order.
+fn hlc_directed(rep: &mut Report, m: &mut Model) {
+    let stream = "hlc.directed";
+    let modes = [HPhys::Pin, HPhys::Live(0), HPhys::Live(-3_600_000), HPhys::Live(2 * HLC_FAR as i64)];
+    for (mi, mode) in modes.iter().enumerate() {
+        for k in 0..4usize {
+            for lrel in -2i64..=2 {
+                for dw in [0i64, -1, 1] {
+                    for node in [1u32, 2] {
+                        if node == 1 && (dw != 0 || mi > 1) {
+                            continue;
+                        }
+                        let case = format!("delayed_tie.mode{mi}.k{k}.l{lrel:+}.dw{dw:+}.node{node}");
+                        let mut second: Option<HSrc> = None;
+                        let mut gen = |lab: &HLab, i: usize| -> Option<HStep> {
+                            let cur = lab.cur[0];
+                            if i == 0 {
+                                Some(HStep::Recv { c: 0, phys: HPhys::Pin, src: HSrc::Off(HLC_FAR, 0, 2) })
+                            } else if i <= k {
+                                Some(HStep::Now { c: 0, phys: mode.clone() })
+                            } else if i == k + 1 {
+                                let l = add_i64(cur.logical(), lrel);
+                                let src = HSrc::Held(dw, l, node);
+                                second = Some(src.clone());
+                                Some(HStep::Recv { c: 0, phys: mode.clone(), src })
+                            } else if i == k + 2 {
+                                Some(HStep::Now { c: 0, phys: mode.clone() })
+                            } else if i == k + 3 {
+                                // the same message once more (its wall now relative to the wall the clock holds now)
+                                Some(HStep::Recv { c: 0, phys: mode.clone(), src: HSrc::Again(1) })
+                            } else if i == k + 4 {
+                                Some(HStep::Now { c: 0, phys: HPhys::Pin })
+                            } else {
+                                None
+                            }
+                        };
+                        hlc_case(rep, m, stream, &case, 1, &mut gen);
+                    }
+                }
+            }
+        }
+    }
+    // the same remote timestamp delivered in every round with local events in between
+    for mode in &modes {
+        let case = format!("redelivery_rounds.{}", hphys_txt(mode));
+        let mut gen = |_: &HLab, i: usize| -> Option<HStep> {
+            if i >= 12 {
+                None
+            } else if i % 3 == 0 {
+                Some(HStep::Recv { c: 0, phys: mode.clone(), src: HSrc::Off(HLC_FAR + 120_000, 3, 9) })
+            } else {
+                Some(HStep::Now { c: 0, phys: mode.clone() })
+            }
+        };
+        hlc_case(rep, m, stream, &case, 1, &mut gen);
+    }
+    // physical reading ahead of everything: ties of the reading with the clock's own wall and with the
+    // received wall, then the physical clock is set back below what the clock holds
+    for lrel in -1i64..=1 {
+        for back in [HPhys::Pin, HPhys::Live(0), HPhys::Live(HLC_FAR as i64)] {
+            let case = format!("physical_ahead_then_back.l{lrel:+}.{}", hphys_txt(&back));
+            let ahead = HPhys::Live(2 * HLC_FAR as i64);
+            let mut gen = |lab: &HLab, i: usize| -> Option<HStep> {
+                let cur = lab.cur[0];
+                let l = add_i64(cur.logical(), lrel);
+                match i {
+                    0 | 1 => Some(HStep::Now { c: 0, phys: ahead.clone() }),
+                    2 => Some(HStep::Recv { c: 0, phys: ahead.clone(), src: HSrc::Held(0, l, 2) }),
+                    3 => Some(HStep::Recv { c: 0, phys: ahead.clone(), src: HSrc::Phys(0, l, 2) }),
+                    4 => Some(HStep::Recv { c: 0, phys: ahead.clone(), src: HSrc::Phys(1, l, 2) }),
+                    5 => Some(HStep::Recv { c: 0, phys: ahead.clone(), src: HSrc::Held(-1, l + 3, 2) }),
+                    6 => Some(HStep::Now { c: 0, phys: back.clone() }),
+                    7 => Some(HStep::Recv { c: 0, phys: back.clone(), src: HSrc::Held(0, l, 2) }),
+                    8 => Some(HStep::Recv { c: 0, phys: back.clone(), src: HSrc::Phys(0, l, 2) }),
+                    9 => Some(HStep::Recv { c: 0, phys: back.clone(), src: HSrc::Held(0, 0, 0) }),
+                    10 => Some(HStep::Now { c: 0, phys: back.clone() }),
+                    _ => None,
+                }
+            };
+            hlc_case(rep, m, stream, &case, 1, &mut gen);
+        }
+    }
+    // two clocks: clock 1 runs a minute ahead and stamps two messages in the same millisecond; clock 0
+    // (physical clock behind) receives the second, stamps local events, then the delayed first one
+    for locals in 0..4usize {
+        for fast in [HPhys::Live(60_000), HPhys::Live(HLC_FAR as i64)] {
+            for slow in [HPhys::Pin, HPhys::Live(0), HPhys::Live(-60_000)] {
+                let case = format!("two_clocks_reordered.locals{locals}.{}.{}", hphys_txt(&fast), hphys_txt(&slow));
+                let mut gen = |lab: &HLab, i: usize| -> Option<HStep> {
+                    // issued so far: #0 #1 calibration, #2 #3 #4 = clock 1's messages
+                    if i < 3 {
+                        Some(HStep::Now { c: 1, phys: fast.clone() })
+                    } else if i == 3 {
+                        Some(HStep::Recv { c: 0, phys: slow.clone(), src: HSrc::Issued(4) })
+                    } else if i < 4 + locals {
+                        Some(HStep::Now { c: 0, phys: slow.clone() })
+                    } else if i == 4 + locals {
+                        Some(HStep::Recv { c: 0, phys: slow.clone(), src: HSrc::Issued(2) })
+                    } else if i == 5 + locals {
+                        Some(HStep::Recv { c: 0, phys: slow.clone(), src: HSrc::Issued(3) })
+                    } else if i == 6 + locals {
+                        Some(HStep::Now { c: 0, phys: slow.clone() })
+                    } else if i == 7 + locals {
+                        // and back: the fast clock hears from the slow one
+                        Some(HStep::Recv { c: 1, phys: fast.clone(), src: HSrc::Issued(lab.all.len() - 1) })
+                    } else if i == 8 + locals {
+                        Some(HStep::Recv { c: 1, phys: HPhys::Pin, src: HSrc::Issued(lab.all.len() - 3) })
+                    } else {
+                        None
+                    }
+                };
+                hlc_case(rep, m, stream, &case, 2, &mut gen);
+            }
+        }
+    }
+}
+
+/// seeded clock histories on 1-3 real clocks: the clock is usually pushed ahead of physical time first
+/// (so that wall ties are made by the received timestamps), then now() / receive() with received walls
+/// equal to / one off the clock's own wall or the physical reading, counters around the local counter,
+/// copies of timestamps other clocks (or this one) handed out earlier (delayed, duplicated, reordered
+/// messages), re-deliveries of earlier received timestamps, and a physical clock that is pinned behind,
+/// runs at real time, is set back or jumps ahead between any two calls.
+fn hlc_stream(rep: &mut Report, m: &mut Model, root: &Rng, cases: u64) {
+    let stream = "hlc.random";
+    let mut r = root.fork("hlc.random");
+    for case in 0..cases {
+        let n = 1 + r.below(3) as usize;
+        let steps = 6 + r.below(22) as usize;
+        let push_first = r.chance(7, 10);
+        // a small set of physical modes per case, so that consecutive calls often share one
+        let pool = [0i64, -3_600_000, -60_000, 60_000, HLC_FAR as i64, 2 * HLC_FAR as i64, 3 * HLC_FAR as i64];
+        let mut modes: Vec<HPhys> = vec![HPhys::Pin];
+        for _ in 0..1 + r.below(2) {
+            modes.push(HPhys::Live(*r.pick(&pool)));
+        }
+        let pin_bias = r.below(4); // 0: mostly live .. 3: mostly pinned
+        let offs = [HLC_FAR, HLC_FAR + 1, HLC_FAR + 1000, 2 * HLC_FAR, 2 * HLC_FAR + 1, 5 * HLC_FAR];
+        let mut rr = r.fork(&format!("c{case}"));
+        let mut gen = |lab: &HLab, i: usize| -> Option<HStep> {
+            if i >= steps {
+                return None;
+            }
+            let c = rr.below(n as u64) as usize;
+            let phys = if rr.below(4) < pin_bias { HPhys::Pin } else { rr.pick(&modes).clone() };
+            if i < n && push_first {
+                return Some(HStep::Recv { c: i % n, phys: HPhys::Pin, src: HSrc::Off(*rr.pick(&offs[..3]), rr.below(3), 1 + rr.below(3) as u32) });
+            }
+            if rr.chance(2, 5) {
+                return Some(HStep::Now { c, phys });
+            }
+            let cur = lab.cur[c];
+            let near = |rr: &mut Rng| -> u64 {
+                match rr.below(8) {
+                    0 => 0,
+                    1 => cur.logical() + 1 + rr.below(6),
+                    2 => rr.below(cur.logical() + 1),
+                    _ => add_i64(cur.logical(), rr.range(-2, 2)),
+                }
+            };
+            let node = match rr.below(3) {
+                0 => cur.node_id_hash(),
+                1 => 0,
+                _ => 1 + rr.below(5) as u32,
+            };
+            let src = match rr.below(20) {
+                0..=6 => HSrc::Held(*rr.pick(&[0i64, 0, 0, 0, -1, 1, -1000, 7]), near(&mut rr), node),
+                7..=11 => {
+                    // a message: recent ones mostly, old ones sometimes
+                    let len = lab.all.len();
+                    let k = if rr.chance(2, 3) { len - 1 - rr.below(len.min(4) as u64) as usize } else { rr.below(len as u64) as usize };
+                    HSrc::Issued(k)
+                }
+                12..=14 => HSrc::Again(rr.below(64) as usize),
+                15 | 16 => HSrc::Off(*rr.pick(&offs), near(&mut rr), node),
+                _ => HSrc::Phys(*rr.pick(&[0i64, 0, 1, -1]), near(&mut rr), node),
+            };
+            Some(HStep::Recv { c, phys, src })
+        };
+        hlc_case(rep, m, stream, &format!("{case}"), n, &mut gen);
+    }
+}
+
+/// u64::MAX as a received counter: outside the property's quantifier (small timestamp ranges).  The
+/// model driver runs the exact u64 arithmetic, so the answers are compared; what the clock then does is
+/// recorded as an observation (Lean: hlc_saturated_counter_repeats_witness).
+fn hlc_saturation(rep: &mut Report, m: &mut Model) {
+    let stream = "hlc.saturated_counter";
+    let c = HybridLogicalClock::new(1).expect("clock");
+    c.set_drift_offset(i64::MIN);
+    let t0 = c.now().expect("now");
+    let b = t0.wall_ms();
+    let r = HLCTimestamp::new(b + HLC_FAR, u64::MAX, 2);
+    let t1 = c.receive(&r).expect("receive");
+    let t2 = c.now().expect("now");
+    let t3 = c.now().expect("now");
+    let f = |t: &HLCTimestamp| format!("{}:{}:{}", t.wall_ms(), t.logical(), t.node_id_hash());
+    let a1 = m.ask(&format!("hlc_recv {b} 1 1 0 {} {} 2", b + HLC_FAR, u64::MAX));
+    rep.compare(stream, || json!({"step": "receive (B+far, u64::MAX, 2)"}), &format!("{} {} {}", f(&t1), b + HLC_FAR, u64::MAX), &a1);
+    let a2 = m.ask(&format!("hlc_now {} {} 1 0", b + HLC_FAR, u64::MAX));
+    rep.compare(stream, || json!({"step": "now() at counter u64::MAX"}), &format!("{} {} 0", f(&t2), b + HLC_FAR), &a2);
+    let a3 = m.ask(&format!("hlc_now {} 0 1 0", b + HLC_FAR));
+    rep.compare(stream, || json!({"step": "now() after the stored counter wrapped"}), &format!("{} {} 1", f(&t3), b + HLC_FAR), &a3);
+    rep.case(stream, None);
+    if !(t1 > r) || !(t2 > t1) || !(t3 > t2) {
+        rep.observe(json!({
+            "what": "HybridLogicalClock: a received timestamp whose logical counter is u64::MAX saturates the clock's counter: receive() answers with a timestamp that is not after the received one (unless the node id breaks the tie), the next now() repeats it (fetch_add wraps the stored counter to 0 while the returned one saturates) and the following now() goes back to counter 1. Needs a peer that sends logical = u64::MAX; outside the property's quantifier (small timestamp ranges), not counted as a violation",
+            "calls": ["receive (B+40000000, 18446744073709551615, node 2)", "now()", "now()"],
+            "answers": [hts(&t1, b), hts(&t2, b), hts(&t3, b)],
+            "class_if_counted": "tensor_chain.hlc.receive/saturated_counter_not_after_received",
+            "lean": "hlc_saturated_counter_repeats_witness, hlc_bounded_counters_refine"
+        }));
     }
 }
